@@ -108,7 +108,7 @@ CHECKS = {
              'encodings, hexadecimal domain for addresses and decimal otherwise. Counterexamples are replayed on the real dwop_number.',
         design_ref='DESIGN.md section 4 C17',
         note='SLICE: location-list iteration (address ranges, elem/relem/length), offsets and opcodes of operations, ?OP_x and all abbreviation words are not '
-             'covered. DWARF 5 opcodes 0xa0..0xa9 unconstrained. Trusted: cxx2c lowering; models of constant/value_cst/producers and of the '
+             'covered. DWARF 5, unassigned and other vendor opcodes unconstrained. Trusted: cxx2c lowering; models of constant/value_cst/producers and of the '
              'dwarf_getlocation_* calls; the hand-written operand table.',
         technique='CBMC on C lowered from the real C++ per run: loop-free function over the full input domain against an independent table',
     ),
